@@ -59,6 +59,21 @@ def findIndex (os : OS) (cfg : SCfg) (dir : Path) : List Name → Option Path
       | none => findIndex os cfg dir ns
     else findIndex os cfg dir ns
 
+/-- the index loop's `index_path.exists()`: `Path.exists` swallows ENOENT / ENOTDIR / EBADF / ELOOP only, so an
+    index name whose `stat` fails with ENAMETOOLONG (an index symlink whose target holds an over-long
+    component) makes `handle` raise - before any later index name, or the listing, is tried.  True iff
+    the loop meets such a name before it accepts an index. -/
+def indexRaises (os : OS) (cfg : SCfg) (dir : Path) : List Name → Bool
+  | [] => false
+  | n :: ns =>
+    let ip := dir ++ [n]
+    if os.kind ip = .error then true
+    else if os.kind ip = .file then
+      match os.resolve ip with
+      | some r => if inside cfg.root r then false else indexRaises os cfg dir ns
+      | none => indexRaises os cfg dir ns
+    else indexRaises os cfg dir ns
+
 def serveFile (os : OS) (cfg : SCfg) (p : Path) : SResp :=
   if os.kind p ≠ .file then .notFound
   else if os.size p > cfg.maxSize then .tooLarge
@@ -70,14 +85,16 @@ def serveFile (os : OS) (cfg : SCfg) (p : Path) : SResp :=
 
 /-- what is done with a directory `fp` inside the root -/
 def serveDir (os : OS) (cfg : SCfg) (fp : Path) : SResp :=
-  match findIndex os cfg fp cfg.indices with
-  | some ip => serveFile os cfg ip
-  | none =>
-    if cfg.listingOn then
-      match os.listing fp with
-      | some names => .listing fp names
-      | none => .tempFail .listing
-    else .notFound
+  if indexRaises os cfg fp cfg.indices then .raised
+  else
+    match findIndex os cfg fp cfg.indices with
+    | some ip => serveFile os cfg ip
+    | none =>
+      if cfg.listingOn then
+        match os.listing fp with
+        | some names => .listing fp names
+        | none => .tempFail .listing
+      else .notFound
 
 /-- `StaticFileHandler.handle` on the canonical path: its segments and whether it ends in `/` -/
 def handle (os : OS) (cfg : SCfg) (comps : List Name) (trailing : Bool) : SResp :=
@@ -177,26 +194,30 @@ theorem serveDir_file (os : OS) (cfg : SCfg) (fp p : Path) (id : Nat) (h : serve
     ∃ ip, findIndex os cfg fp cfg.indices = some ip ∧ serveFile os cfg ip = .file p id := by
   unfold serveDir at h
   split at h
-  · rename_i ip hip; exact ⟨ip, hip, h⟩
+  · simp at h
   · split at h
-    · split at h <;> simp at h
-    · simp at h
+    · rename_i ip hip; exact ⟨ip, hip, h⟩
+    · split at h
+      · split at h <;> simp at h
+      · simp at h
 
 theorem serveDir_listing (os : OS) (cfg : SCfg) (fp p : Path) (names : List Name)
     (h : serveDir os cfg fp = .listing p names) :
     p = fp ∧ cfg.listingOn = true ∧ os.listing fp = some names ∧ findIndex os cfg fp cfg.indices = none := by
   unfold serveDir at h
   split at h
-  · exact absurd h (serveFile_not_listing _ _ _ _ _)
-  · rename_i hnone
-    split at h
-    · rename_i hl
+  · simp at h
+  · split at h
+    · exact absurd h (serveFile_not_listing _ _ _ _ _)
+    · rename_i hnone
       split at h
-      · rename_i ns hns
-        simp at h
-        exact ⟨h.1.symm, hl, by rw [hns, h.2], hnone⟩
+      · rename_i hl
+        split at h
+        · rename_i ns hns
+          simp at h
+          exact ⟨h.1.symm, hl, by rw [hns, h.2], hnone⟩
+        · simp at h
       · simp at h
-    · simp at h
 
 /-- the shape of `handle` once the path resolved inside the root -/
 theorem handle_cases (os : OS) (cfg : SCfg) (comps : List Name) (trailing : Bool) (r : SResp)
